@@ -15,9 +15,13 @@ func init() {
 			c.StateStoreDiscipline("C01", s, "att")
 			c.RulerLocking("C01")
 			c.RulerKeyAgreement("C01")
+			c.RulerPositions("C01")
 			c.SignIffApproved("C01", map[string]bool{"SignBeaconAttestation": true, "SignBeaconAttestations": true})
 			c.SigningRootProvenance("C01")
 			c.StoreCommit("C03", s)
+			// the histories quantified over include restarts: the record must survive them
+			c.SyncOption("C03")
+			c.WhoWrites("C03")
 			c.BadgerBufferDiscipline("C11")
 		},
 		Explanation: "Structural obligations whose conjunction implies that a stored attestation watermark (S,T) bounds every released attestation and that a new one is approved only if it neither double-votes nor surrounds/is surrounded: see DESIGN.md §5 C01.",
